@@ -187,7 +187,8 @@ Proof.
   destruct (has_links _); [|exact S1].
   eapply struct_eq_trans; [exact S1|]. apply fold_struct. intros h2 pc.
   destruct (c_recv (ch h2 pc)); [|apply struct_eq_refl].
-  destruct (Nat.eqb _ _); [apply set_receiver_struct|apply struct_eq_refl].
+  destruct (Nat.eqb _ _); [|apply struct_eq_refl].
+  destruct RELINK_PUSH; [apply set_receiver_struct|apply struct_eq_setc_recv].
 Qed.
 
 (* ------------------------------------------------------------------ grafting (Macro._parse_remotely_executed_self, 2nd half) *)
@@ -1730,7 +1731,7 @@ Lemma sets_frozen mode X : forall sets s, Forall is_set sets ->
   c_heap (fold_left (step mode X) sets s) = c_heap s /\ c_jobs (fold_left (step mode X) sets s) = c_jobs s.
 Proof.
   induction sets as [|o r IH]; intros s F R O; [split; reflexivity|].
-  inversion F as [|? ? Ho Fr]; subst. destruct o as [l v| | |]; try contradiction. cbn [fold_left].
+  inversion F as [|? ? Ho Fr]; subst. destruct o as [l v| | | |i0 l v]; try contradiction. cbn [fold_left].
   assert (E : c_heap (step mode X s (OSet l v)) = c_heap s /\ c_jobs (step mode X s (OSet l v)) = c_jobs s).
   { destruct (find_chan (c_heap s) X PIn l) as [c|] eqn:Fc.
     - rewrite (lock_refuses mode X s l v c Fc); [split; reflexivity|].
@@ -1849,3 +1850,98 @@ Qed.
 
 Definition site_now := merge_site AsWritten (submitted demo_child 2) 2.
 Definition site_for_now := merge_site AsWritten (as_for (submitted demo_child 2) 2) 2.
+
+
+(* ------------------------------------------------------------------ a refused assignment leaves NOTHING changed *)
+(* whichever channel of the receiver chain is locked -- the assigned one, or the input of ANOTHER node it forwards
+   into -- the setter refuses before anything is stored *)
+Lemma set_val_refused_chain : forall fuel h c v,
+  existsb (locked h) (chain fuel h c) = true -> set_val fuel h c v = None.
+Proof.
+  induction fuel as [|f IH]; intros h c v E; [discriminate|]. simpl in *.
+  destruct (locked h c) eqn:L; [reflexivity|]. simpl in E.
+  destruct (c_recv (ch h c)) as [r|]; [|discriminate]. now rewrite (IH h r v E).
+Qed.
+
+Theorem refused_changes_nothing mode X s i l v c :
+  find_chan (c_heap s) i PIn l = Some c ->
+  existsb (locked (c_heap s)) (chain VFUEL (c_heap s) c) = true ->
+  step mode X s (OSetOn i l v) = log s (c_heap s) (c_jobs s) "RuntimeError".
+Proof. intros F E. unfold step. rewrite F. now rewrite (set_val_refused_chain VFUEL _ c (Some v) E). Qed.
+
+(* ... and an accepted one walked a chain on which nobody was locked *)
+Lemma set_val_accepted_chain : forall fuel h c v h1,
+  set_val fuel h c v = Some h1 -> existsb (locked h) (chain fuel h c) = false.
+Proof.
+  induction fuel as [|f IH]; intros h c v h1 E; [reflexivity|]. simpl in *.
+  destruct (locked h c); [discriminate|]. simpl.
+  destruct (c_recv (ch h c)) as [r|]; [|reflexivity].
+  destruct (set_val f h r v) as [h2|] eqn:E2; [|discriminate]. now apply (IH h r v h2).
+Qed.
+
+(* ------------------------------------------------------------------ a macro nested in an IDLE macro whose input forwards
+   straight into it (reflected from the real graph  wf{ n0 = MF(x=1){ inner = MA(x) } }, inner on the
+   pickle-boundary executor; node 1 = the enclosing macro n0, node 2 = inner) *)
+Definition demo_nested : heap :=
+  (mkHeap [(0%nat, mkNode "wf"%string KWf None None ExNone false false [1%nat] [0%nat; 1%nat; 2%nat; 3%nat] [1%nat]);
+   (1%nat, mkNode "n0"%string KMacro (Some 0%nat) None ExNone false false [2%nat] [4%nat; 5%nat; 6%nat; 7%nat; 8%nat; 9%nat] [2%nat]);
+   (2%nat, mkNode "inner"%string KMacro (Some 1%nat) None (ExInst 1%nat) false false [3%nat; 4%nat] [10%nat; 11%nat; 12%nat; 13%nat; 14%nat; 15%nat] [3%nat]);
+   (3%nat, mkNode "a"%string (KLeaf FLin) (Some 2%nat) None ExNone false false [] [16%nat; 17%nat; 18%nat; 19%nat; 20%nat; 21%nat; 22%nat; 23%nat] []);
+   (4%nat, mkNode "b"%string (KLeaf FLin) (Some 2%nat) None ExNone false false [] [24%nat; 25%nat; 26%nat; 27%nat; 28%nat; 29%nat; 30%nat; 31%nat] [])] [(0%nat, mkChan 0%nat "run"%string SIn [] None None);
+   (1%nat, mkChan 0%nat "accumulate_and_run"%string SIn [] None None);
+   (2%nat, mkChan 0%nat "ran"%string SOut [] None None);
+   (3%nat, mkChan 0%nat "failed"%string SOut [] None None);
+   (4%nat, mkChan 1%nat "x"%string PIn [] (Some (1)%Z) (Some 10%nat));
+   (5%nat, mkChan 1%nat "out"%string POut [] None None);
+   (6%nat, mkChan 1%nat "run"%string SIn [] None None);
+   (7%nat, mkChan 1%nat "accumulate_and_run"%string SIn [] None None);
+   (8%nat, mkChan 1%nat "ran"%string SOut [] None None);
+   (9%nat, mkChan 1%nat "failed"%string SOut [] None None);
+   (10%nat, mkChan 2%nat "x"%string PIn [] (Some (1)%Z) (Some 18%nat));
+   (11%nat, mkChan 2%nat "out"%string POut [] None (Some 5%nat));
+   (12%nat, mkChan 2%nat "run"%string SIn [] None None);
+   (13%nat, mkChan 2%nat "accumulate_and_run"%string SIn [] None None);
+   (14%nat, mkChan 2%nat "ran"%string SOut [] None None);
+   (15%nat, mkChan 2%nat "failed"%string SOut [] None None);
+   (16%nat, mkChan 3%nat "tag"%string PIn [] (Some (100)%Z) None);
+   (17%nat, mkChan 3%nat "k"%string PIn [] (Some (1)%Z) None);
+   (18%nat, mkChan 3%nat "a"%string PIn [] (Some (1)%Z) None);
+   (19%nat, mkChan 3%nat "y"%string POut [26%nat] None None);
+   (20%nat, mkChan 3%nat "run"%string SIn [] None None);
+   (21%nat, mkChan 3%nat "accumulate_and_run"%string SIn [] None None);
+   (22%nat, mkChan 3%nat "ran"%string SOut [29%nat] None None);
+   (23%nat, mkChan 3%nat "failed"%string SOut [] None None);
+   (24%nat, mkChan 4%nat "tag"%string PIn [] (Some (101)%Z) None);
+   (25%nat, mkChan 4%nat "k"%string PIn [] (Some (2)%Z) None);
+   (26%nat, mkChan 4%nat "a"%string PIn [19%nat] None None);
+   (27%nat, mkChan 4%nat "y"%string POut [] None (Some 11%nat));
+   (28%nat, mkChan 4%nat "run"%string SIn [] None None);
+   (29%nat, mkChan 4%nat "accumulate_and_run"%string SIn [22%nat] None None);
+   (30%nat, mkChan 4%nat "ran"%string SOut [] None None);
+   (31%nat, mkChan 4%nat "failed"%string SOut [] None None)] 32%nat []).
+
+Definition chan_val (h : heap) (i : nat) (p : panel) (l : string) : option Z :=
+  match find_chan h i p l with Some c => c_val (ch h c) | None => None end.
+
+(* while inner is out, an assignment at the ENCLOSING macro's input bounces and leaves the whole heap as it was;
+   inner comes back showing the input it was sent out with, and its output belongs to it *)
+Lemma nested_refused_example :
+  let s1 := run_ops AsWritten 2 demo_nested [ORun] in
+  let s2 := step AsWritten 2 s1 (OSetOn 1 "x" 10%Z) in
+  c_log s2 = [OS "Future"; OS "RuntimeError"] /\
+  render (c_heap s2) 0 = render (c_heap s1) 0 /\
+  let s3 := step AsWritten 2 (step AsWritten 2 s2 (OSet "x" 10%Z)) OComplete in
+  chan_val (c_heap s3) 1 PIn "x" = Some 1%Z /\ chan_val (c_heap s3) 2 PIn "x" = Some 1%Z /\
+  chan_val (c_heap s3) 2 POut "out" = Some 4%Z.
+Proof. vm_compute. repeat split; reflexivity. Qed.
+
+(* STILL VIOLATED: the merge re-points the enclosing macro's input through the value_receiver setter, which pushes
+   the enclosing value into the fresh input: sent out with x = 5 (assigned at inner's own input while idle; links
+   are one-directional), inner comes back showing x = 1 with the output computed for 5 *)
+Lemma relink_push_refuted :
+  RELINK_PUSH = true /\
+  let s := run_ops AsWritten 2 demo_nested [OSet "x" 5%Z; ORun; OComplete] in
+  c_log s = [OS "ok"; OS "Future"; OS "done"] /\
+  chan_val (c_heap s) 2 PIn "x" = Some 1%Z /\ chan_val (c_heap s) 2 POut "out" = Some 8%Z /\
+  apply_fun FLin [101; 2; 2]%Z = Some 4%Z.
+Proof. vm_compute. repeat split; reflexivity. Qed.
